@@ -63,13 +63,42 @@ func (t *treeGen) labelList(nonEmpty bool) string {
 	}
 }
 
+var treeRangeFns = map[string]int{"count_over_time": 0, "last_over_time": 1, "max_over_time": 2, "min_over_time": 3,
+	"sum_over_time": 4, "changes": 5, "resets": 6, "present_over_time": 7}
+
+// a range function over a matrix selector
+func (t *treeGen) rangeLeaf() string {
+	names := make([]string, 0, len(treeRangeFns))
+	for n := range treeRangeFns {
+		names = append(names, n)
+	}
+	sort.Strings(names)
+	s := pick(t.r, []string{"foo", "bar", `{__name__=~"foo|bar"}`, `foo{a!=""}`, `{a="x"}`})
+	if t.r.Intn(4) == 0 {
+		s = t.g.freshSelector()
+	}
+	d := pick(t.r, []string{"30s", "1m", "2m", "45s", "5m", "17s", "1s", "90s"})
+	off := ""
+	if t.r.Intn(4) == 0 {
+		off = " offset " + pick(t.r, []string{"30s", "1m", "-30s", "17s"})
+	}
+	return fmt.Sprintf("%s(%s[%s]%s)", pick(t.r, names), s, d, off)
+}
+
+func (t *treeGen) leaf() string {
+	if t.r.Intn(3) == 0 {
+		return t.rangeLeaf()
+	}
+	return t.sel()
+}
+
 func (t *treeGen) tree(d int) string {
 	if d <= 0 {
-		return t.sel()
+		return t.leaf()
 	}
 	switch k := t.r.Intn(10); {
 	case k < 2:
-		return t.sel()
+		return t.leaf()
 	case k < 6: // join
 		op := pick(t.r, []string{"+", "-", "==", "!=", ">", "<", ">=", "<="})
 		if op != "+" && op != "-" && t.r.Intn(3) == 0 {
@@ -86,11 +115,11 @@ func (t *treeGen) tree(d int) string {
 		if m != "" {
 			switch t.r.Intn(6) {
 			case 0:
-				m += " group_left"
+				m += " group_left ()"
 			case 1:
 				m += " group_left (" + pick(t.r, []string{"b", "c", "zz", "__name__"}) + ")"
 			case 2:
-				m += " group_right"
+				m += " group_right ()"
 			case 3:
 				m += " group_right (" + pick(t.r, []string{"b", "c"}) + ")"
 			}
@@ -112,15 +141,41 @@ func (t *treeGen) tree(d int) string {
 		default:
 			return fmt.Sprintf("%s %s (%s)", lit, pick(t.r, []string{"<", ">=", "!=", "== bool", "> bool"}), t.tree(d-1))
 		}
-	default: // count
+	default: // aggregation
+		op := pick(t.r, []string{"count", "count", "sum", "max", "min", "group"})
 		if t.r.Intn(2) == 0 {
-			return fmt.Sprintf("count without (%s) (%s)", t.labelList(false), t.tree(d-1))
+			return fmt.Sprintf("%s without (%s) (%s)", op, t.labelList(false), t.tree(d-1))
 		}
-		return fmt.Sprintf("count by (%s) (%s)", t.labelList(true), t.tree(d-1))
+		return fmt.Sprintf("%s by (%s) (%s)", op, t.labelList(op == "count"), t.tree(d-1))
 	}
 }
 
 var treeOps = map[string]int{"+": 0, "-": 1, "==": 4, "!=": 5, ">": 6, "<": 7, ">=": 8, "<=": 9}
+
+// translateSeries: the series a selector matches, in storage order: labels and samples (4 * value)
+func translateSeries(n *parser.VectorSelector, c *Case, u *Universe) (string, string, bool) {
+	idx := matchSeries(c.Data, n.LabelMatchers)
+	ls := make([]string, len(idx))
+	ss := make([]string, len(idx))
+	for k, i := range idx {
+		u.AddLabels(c.Data[i].Labels)
+		ls[k] = u.labels(c.Data[i].Labels)
+		xs := make([]string, len(c.Data[i].Samples))
+		for j, s := range c.Data[i].Samples {
+			if math.Float64bits(s.V) == math.Float64bits(StaleNaN) {
+				xs[j] = fmt.Sprintf("mkS %s None", coqZ(s.T))
+				continue
+			}
+			q, ok := quarterZ(s.V)
+			if !ok {
+				return "", "", false
+			}
+			xs[j] = fmt.Sprintf("mkS %s (Some %s)", coqZ(s.T), coqZ(q))
+		}
+		ss[k] = coqList(xs)
+	}
+	return coqList(ls), coqList(ss), true
+}
 
 // translate turns the preprocessed plan into a Trees.jtree term.
 func translateTree(e parser.Expr, c *Case, u *Universe) (string, bool) {
@@ -131,27 +186,11 @@ func translateTree(e parser.Expr, c *Case, u *Universe) (string, bool) {
 		if n.Timestamp != nil || n.StartOrEnd != 0 {
 			return "", false
 		}
-		idx := matchSeries(c.Data, n.LabelMatchers)
-		ls := make([]string, len(idx))
-		ss := make([]string, len(idx))
-		for k, i := range idx {
-			u.AddLabels(c.Data[i].Labels)
-			ls[k] = u.labels(c.Data[i].Labels)
-			xs := make([]string, len(c.Data[i].Samples))
-			for j, s := range c.Data[i].Samples {
-				if math.Float64bits(s.V) == math.Float64bits(StaleNaN) {
-					xs[j] = fmt.Sprintf("mkS %s None", coqZ(s.T))
-					continue
-				}
-				q, ok := quarterZ(s.V)
-				if !ok {
-					return "", false
-				}
-				xs[j] = fmt.Sprintf("mkS %s (Some %s)", coqZ(s.T), coqZ(q))
-			}
-			ss[k] = coqList(xs)
+		ls, ss, ok := translateSeries(n, c, u)
+		if !ok {
+			return "", false
 		}
-		return fmt.Sprintf("(JLeaf %s %s %s)", coqList(ls), coqList(ss), coqZ(n.OriginalOffset.Milliseconds())), true
+		return fmt.Sprintf("(JLeaf %s %s %s)", ls, ss, coqZ(n.OriginalOffset.Milliseconds())), true
 	case *parser.UnaryExpr:
 		if n.Op != parser.SUB {
 			return translateTree(n.Expr, c, u)
@@ -159,18 +198,37 @@ func translateTree(e parser.Expr, c *Case, u *Universe) (string, bool) {
 		t, ok := translateTree(n.Expr, c, u)
 		return fmt.Sprintf("(JMap true (zmap 0 0 false 0) %s)", t), ok
 	case *parser.Call:
+		if code, isRange := treeRangeFns[n.Func.Name]; isRange && len(n.Args) == 1 {
+			ms, ok := n.Args[0].(*parser.MatrixSelector)
+			if !ok {
+				return "", false
+			}
+			vs, ok := ms.VectorSelector.(*parser.VectorSelector)
+			if !ok || vs.Timestamp != nil || vs.StartOrEnd != 0 {
+				return "", false
+			}
+			ls, ss, ok := translateSeries(vs, c, u)
+			if !ok {
+				return "", false
+			}
+			return fmt.Sprintf("(JRange %s (zrange %d%%N) %s %s %s %s)", coqBool(n.Func.Name == "last_over_time"), code,
+				coqZ(ms.Range.Milliseconds()), ls, ss, coqZ(vs.OriginalOffset.Milliseconds())), true
+		}
 		if n.Func.Name != "abs" || len(n.Args) != 1 {
 			return "", false
 		}
 		t, ok := translateTree(n.Args[0], c, u)
 		return fmt.Sprintf("(JMap true (zmap 1 0 false 0) %s)", t), ok
 	case *parser.AggregateExpr:
-		if n.Op != parser.COUNT {
-			return "", false
-		}
 		t, ok := translateTree(n.Expr, c, u)
 		for _, g := range n.Grouping {
 			u.Names.Add(g)
+		}
+		if code, isAcc := map[parser.ItemType]int{parser.SUM: 0, parser.MAX: 1, parser.MIN: 2, parser.GROUP: 3}[n.Op]; isAcc {
+			return fmt.Sprintf("(JAgg (zinit %d%%N) (zadd %d%%N) %s %s %s)", code, code, coqBool(n.Without), u.nameList(n.Grouping), t), ok
+		}
+		if n.Op != parser.COUNT {
+			return "", false
 		}
 		return fmt.Sprintf("(JCount (fun n => 4 * Z.of_nat n) %s %s %s)", coqBool(n.Without), u.nameList(n.Grouping), t), ok
 	case *parser.BinaryExpr:
